@@ -607,6 +607,9 @@ func runC12(c *core.Ctx) {
 	h.exact = exact
 	h.anySpec = true
 	h.weights[opReweight] = 2
+	// identity conversions (equal mapping, scale 1) are copies by another name: part of the histories
+	h.identityCM = true
+	h.weights[opChangeMapping] = 1
 	if r.P(0.4) {
 		h.withCompanions()
 		c.Count("histories_with_live_companions", 1)
